@@ -55,7 +55,7 @@ import (
 
 var ctx = context.Background()
 
-// the horizon: the largest corpus execution needs ~1e5 ticks and ~2500 steps
+// the horizon: the largest execution observed needs 1.7e4 ticks and 2.2e3 scheduled operations
 var cfg = vrt.Config{Diag: true, MaxTicks: 3000000, MaxSteps: 60000}
 
 // the lexer alone, on texts of a few tokens
@@ -690,6 +690,12 @@ type spacePlan struct {
 	extra   map[string]interface{}
 }
 
+// controlled executions of the guard, counted in the evidence
+var (
+	guardHB    = map[uint64]struct{}{}
+	guardSteps int64
+)
+
 // lexerGuard runs the real lexer, under control, over every canonical lexeme
 // after every possible previous kind (the lexer's only state besides its
 // position) and over the corpus. The generators lex natively (recog.Render);
@@ -706,6 +712,8 @@ func lexerGuard(r *common.Run, kinds []recog.Kind) bool {
 				toks++
 			}
 		})
+		guardHB[out.HB] = struct{}{}
+		guardSteps += int64(out.Steps)
 		if out.Status != vrt.StOK {
 			ok = false
 			c := Case{Space: "S0", Origin: what, Text: text, Store: "empty", BulkSize: 1}
@@ -803,11 +811,12 @@ func main() {
 	if !lexerGuard(r, kinds) {
 		// the generators would hang on native lexing: report what the guard found and stop
 		r.SetCapped()
-		r.Set("states", 1)
-		r.Set("transitions", 1)
+		r.Set("states", len(guardHB))
+		r.Set("transitions", int(guardSteps))
 		r.Set("traces_validated_against_impl", r.Get("lexer_guard_texts"))
-		r.Set("rule", "the lexer alone does not terminate on canonical lexemes: input spaces not generated")
-		r.Sample(map[string]string{"note": "lexer guard failed"})
+		r.Set("evaluations", r.Get("lexer_guard_texts"))
+		r.Set("rule", "the lexer alone does not terminate on some short text: the input spaces were not generated; states / transitions are those of the controlled executions of the lexer guard")
+		r.Sample(map[string]string{"note": "lexer guard failed, see the violations"})
 		r.Finish()
 	}
 
@@ -928,7 +937,10 @@ func main() {
 		outcomes[g.name] = map[string]int{}
 		order = append(order, g.name)
 	}
-	totalExecs, totalB1, totalSteps := 0, 0, int64(0)
+	totalExecs, totalB1, totalSteps := 0, 0, guardSteps
+	for h := range guardHB {
+		hb[h] = struct{}{}
+	}
 	type merged struct {
 		f     failOut
 		count int
@@ -1066,10 +1078,10 @@ func main() {
 	r.Set("most_frequent_outcomes", ocs)
 	r.Set("states", len(hb)) // distinct happens-before partial orders of the op traces of the default-schedule executions
 	r.Set("transitions", int(totalSteps))
-	r.Set("traces_validated_against_impl", totalExecs+totalB1)
-	r.Set("evaluations", totalExecs+totalB1)
+	r.Set("traces_validated_against_impl", totalExecs+totalB1+r.Get("lexer_guard_texts"))
+	r.Set("evaluations", totalExecs+totalB1+r.Get("lexer_guard_texts"))
 	r.Set("distinct_nontrivial", distinctOutcomes)
-	r.Set("rule", "case = (statement text, store in {empty, graphs exist but empty, populated}, chanSize, bulkSize); one controlled execution of run.BQL per case on the default schedule, plus every schedule with at most one deviation for every K-th execution of a space (K per space in spaces[].bound1_every_kth_execution); texts are enumerated exhaustively per space (spaces[].what) and de-duplicated; states = distinct happens-before partial orders among the default-schedule executions, transitions = scheduled operations, distinct_nontrivial = distinct outcomes (result stage + constant part of the error message, or table shape, or oracle verdict)")
+	r.Set("rule", "case = (statement text, store in {empty, graphs exist but empty, populated}, chanSize, bulkSize); one controlled execution of run.BQL per case on the default schedule, plus every schedule with at most one deviation for every K-th execution of a space (K per space in spaces[].bound1_every_kth_execution); texts are enumerated exhaustively per space (spaces[].what) and de-duplicated; states = distinct happens-before partial orders among the default-schedule executions (those of the lexer guard included), transitions = scheduled operations, distinct_nontrivial = distinct outcomes (result stage + constant part of the error message, or table shape, or oracle verdict)")
 	if b, err := os.ReadFile(filepath.Join(common.Root(), instrDir(), "inventory.json")); err == nil {
 		var inv map[string]interface{}
 		if json.Unmarshal(b, &inv) == nil {
